@@ -1987,6 +1987,9 @@ func (ls *LState) Resume(th *LState, fn *LFunction, args ...LValue) (ResumeState
 	if th.Dead {
 		return ResumeError, newApiErrorS(ApiErrorRun, "can not resume a dead thread"), nil
 	}
+	if ls.Status(th) == "normal" {
+		return ResumeError, newApiErrorS(ApiErrorRun, "can not resume a non-suspended thread"), nil
+	}
 	th.Parent = ls
 	ls.G.CurrentThread = th
 	if !isstarted {
